@@ -57,6 +57,58 @@ reg("C10", "exploration",
     "be refused by both readers.",
     "p2p messages without a reference encoder are only covered by the metamorphic relations. One recorded known finding (IPv4-mapped PeerAddr normalisation).")
 
+reg("C04", "exploration",
+    "construction-label oracle over single-field header mutants (re-mined, real PoW) through every entry point + u128 reference retarget over random/adversarial windows",
+    "Real-PoW AutomatedTesting chains through all five header versions; every height gets ~45 single-field header mutants, re-mined when the "
+    "field is part of the PoW pre-image so only the targeted rule is violated, delivered through process_block_header, sync_block_headers "
+    "(bad header at position k of n), process_block and the untrusted reader; invalid ones must be refused without leaving a trace, valid "
+    "ones accepted. next_difficulty is compared with an independent u128 reference (DMA, AR scaling, WTEMA) over millions of windows on all "
+    "four chain types and eras: determinism, minimum, damp/clamp bounds, equality.",
+    "Cuckaroo29 / Cuckatoo31+ headers cannot be mined here: mainnet/testnet acceptance is covered through the pure retarget, the version schedule and the reader only.")
+
+reg("C07", "exploration",
+    "reference-model monitor: explicit MMR node table built by definition vs position arithmetic, roots and Merkle proofs (exhaustive up to a bound)",
+    "An explicit node table built from the definition answers every positional question by lookup; all 18 pure position functions are "
+    "compared for EVERY position below 2^12 (quick) / 2^16 (thorough) leaves and for structured huge arguments against a u128 closed form; "
+    "PMMR/ReadonlyPMMR/RewindablePMMR roots, peaks and sizes after every push and rewind; every leaf of every MMR up to 128 / 512 leaves gets "
+    "its proof compared with the reference path and every single-field corruption (element, position, each path hash, shortened, "
+    "lengthened) must fail.",
+    "The advisory mmr_size field of a proof is not claimed. Trusted base: the hash primitive.")
+
+reg("C11", "exploration",
+    "panic / abort / allocation / hang monitors over structure-aware mutations of every decoder's valid encodings, in worker subprocesses",
+    "690k (quick) / 3.2M (thorough) deterministic cases: every integer field of every seed encoding set to boundary and huge values, "
+    "truncation at every offset, tag sweeps, splices, bit flips, random bytes, at protocol versions 1/2/3/1000, through 38 decoders incl. "
+    "Codec::read over a socket and the stateless post-decode checks (validate_read, Segment::root/validate, BitmapSegment::into_segment). "
+    "Per case: panic monitor with source location, tracking allocator (single request <= 16*len+2MiB, peak <= 64*len+8MiB, hard cap "
+    "terminates the worker), watchdog; worker deaths are attributed by re-running the single case.",
+    "API JSON layer is driven through from_hex directly. Slow-but-finite work below the 20 s case budget is not flagged.")
+
+reg("C12", "exploration",
+    "algebraic / metamorphic oracles (set arithmetic over commitments, own mod-n offset adder) over permutations and groupings; hydration differential",
+    "Pools of valid transactions (independent, chains, diamonds, fan-outs, multi-kernel, all kernel variants, zero / cancelling offsets) are "
+    "aggregated in every permutation (<=5 operands) and random groupings: result validates, kernels = union, offset = sum (own 256-bit "
+    "adder), inputs/outputs = union minus exactly the matched pairs, order and grouping independent, deaggregate(agg, subset) == remainder; "
+    "blocks built from them survive CompactBlock::from + hydrate_from in any grouping bit for bit (fresh nonces, own SipHash reference for short ids).",
+    "Short-id collision handling and fee_shift != 0 are not exercised.")
+
+reg("C13", "exploration",
+    "reference-rule oracle (ledger arithmetic on the fork being extended) over scripted boundary scenarios on forks, reorgs, rewinds and the pool",
+    "78 (rule x placement class x boundary offset) cells: coinbase maturity, lock heights and NRD relative locks at one below / at / one above "
+    "the threshold, on a single chain, across fork points, on fork blocks re-applied during a reorg, after rewinds (A->B->A'), NRD duplicates "
+    "across forks and inside one block, and pool admission incl. with header_head on a competing fork; every process_block / add_to_pool "
+    "decision is compared with the rule evaluated by the reference ledger.",
+    "AutomatedTesting parameters (maturity 3). Stempool interactions are C14's.")
+
+reg("C19", "exploration",
+    "sent-vs-received history comparison over every split point / multi-splits / dribble; refusal monitors (bytes consumed, allocation) at per-type limits; scripted handshake matrix",
+    "Real Codec::read and conn::listen over loopback sockets: every single split point of short sequences covering every message type at four "
+    "protocol versions, header lists of 1..512 headers with varying edge bits cut at every header boundary, attachments around the 48 000 byte "
+    "chunking, unknown types, 5k-100k random sequences with delays; refused frames (wrong magic, over-limit length per type, count vs length) "
+    "must error having consumed <= 11 bytes and without allocating the announced size; handshake negotiates min(local, remote), refuses "
+    "other genesis and self connections.",
+    "Delays stay far below the 2 s / 60 s codec timeouts (premise of the property). One recorded known finding (under-counted item lists are accepted).")
+
 NOT_READY_REASON = "check under construction in this session (design in DESIGN.md section 3); not yet claimed"
 
 def main():
